@@ -122,6 +122,12 @@ theorem docAtoms_trailingCommaDoc (fixed : Bool) (tc : Option WTok) :
   | none => simp [trailingCommaDoc, trailingCommaAtoms, docAtoms]
   | some t => cases fixed <;> simp [trailingCommaDoc, trailingCommaAtoms, docAtoms, docAtoms_commentsOnlyDoc]
 
+theorem docAtoms_accSep (r : Accs) : docAtoms (accSep r) = [] := by cases r <;> simp [accSep, docAtoms]
+
+theorem docAtoms_callArgs (kt kc : Bool) (iw : Nat) (args : Args) (d : Doc) (h : docAtoms d = argsAtomsW kt kc args) :
+    docAtoms (callArgsDoc iw args.isNil d) = argsAtomsW kt kc args := by
+  cases args <;> simp_all [callArgsDoc, Args.isNil, docAtoms, argsAtomsW]
+
 theorem docAtoms_nil : docAtoms Doc.nil = [] := by simp [docAtoms]
 theorem docAtoms_line : docAtoms Doc.line = [] := by simp [docAtoms]
 
@@ -160,11 +166,13 @@ theorem chainDocW_atoms (fixed : Bool) (iw : Nat) (k : ChainKind) : ∀ c : Chai
 theorem accsDocW_atoms (fixed : Bool) (iw : Nat) : ∀ a : Accs, docAtoms (accsDocW fixed iw a) = accsAtomsW false fixed a
   | .nil => by simp [accsDocW, accsAtomsW, docAtoms]
   | .field dot name rest => by
-    simp [accsDocW, accsAtomsW, docAtoms, docAtoms_tokDoc _ .nil docAtoms_nil, accsDocW_atoms fixed iw rest]
+    simp [accsDocW, accsAtomsW, docAtoms, docAtoms_tokDoc _ .nil docAtoms_nil, docAtoms_accSep, accsDocW_atoms fixed iw rest]
   | .call l args r rest => by
-    simp [accsDocW, accsAtomsW, docAtoms, docAtoms_tokDoc _ .nil docAtoms_nil, argsDocW_atoms fixed iw args, accsDocW_atoms fixed iw rest]
+    simp [accsDocW, accsAtomsW, docAtoms, docAtoms_tokDoc _ .nil docAtoms_nil, docAtoms_accSep,
+      docAtoms_callArgs false fixed iw args _ (argsDocW_atoms fixed iw args), accsDocW_atoms fixed iw rest]
   | .index l e r rest => by
-    simp [accsDocW, accsAtomsW, docAtoms, docAtoms_tokDoc _ .nil docAtoms_nil, toDocW_atoms fixed iw e, accsDocW_atoms fixed iw rest]
+    simp [accsDocW, accsAtomsW, docAtoms, docAtoms_tokDoc _ .nil docAtoms_nil, docAtoms_accSep, toDocW_atoms fixed iw e,
+      accsDocW_atoms fixed iw rest]
 end
 
 theorem commentsOf_append (a b : List Atom) : commentsOf (a ++ b) = commentsOf a ++ commentsOf b := by
@@ -272,6 +280,12 @@ theorem docSafe_tokDoc (t : WTok) (next : Doc) (hn : docSafe false next = some f
     docSafe false (tokDoc t next) = some false :=
   docSafe_addComment _ _ _ _ (by simp [docSafe]) hn
 
+theorem docSafe_accSep (r : Accs) : docSafe false (accSep r) = some false := by cases r <;> simp [accSep, docSafe]
+
+theorem docSafe_callArgs (iw : Nat) (b : Bool) (d : Doc) (h : docSafe false d = some false) :
+    docSafe false (callArgsDoc iw b d) = some false := by
+  cases b <;> simp [callArgsDoc, docSafe, h]
+
 theorem docSafe_nil : docSafe false Doc.nil = some false := by simp [docSafe]
 theorem docSafe_line : docSafe false Doc.line = some false := by simp [docSafe]
 
@@ -315,11 +329,13 @@ theorem chainDocW_safe (fixed : Bool) (iw : Nat) (k : ChainKind) : ∀ c : Chain
       toDocW_safe fixed iw e, chainDocW_safe fixed iw _ rest]
 theorem accsDocW_safe (fixed : Bool) (iw : Nat) : ∀ a : Accs, docSafe false (accsDocW fixed iw a) = some false
   | .nil => by simp [accsDocW, docSafe]
-  | .field dot name rest => by simp [accsDocW, docSafe, docSafe_tokDoc _ .nil docSafe_nil, accsDocW_safe fixed iw rest]
+  | .field dot name rest => by
+    simp [accsDocW, docSafe, docSafe_tokDoc _ .nil docSafe_nil, docSafe_accSep, accsDocW_safe fixed iw rest]
   | .call l args r rest => by
-    simp [accsDocW, docSafe, docSafe_tokDoc _ .nil docSafe_nil, argsDocW_safe fixed iw args, accsDocW_safe fixed iw rest]
+    simp [accsDocW, docSafe, docSafe_tokDoc _ .nil docSafe_nil, docSafe_accSep,
+      docSafe_callArgs iw _ _ (argsDocW_safe fixed iw args), accsDocW_safe fixed iw rest]
   | .index l e r rest => by
-    simp [accsDocW, docSafe, docSafe_tokDoc _ .nil docSafe_nil, toDocW_safe fixed iw e, accsDocW_safe fixed iw rest]
+    simp [accsDocW, docSafe, docSafe_tokDoc _ .nil docSafe_nil, docSafe_accSep, toDocW_safe fixed iw e, accsDocW_safe fixed iw rest]
 end
 
 /-! ### the policy level -/
